@@ -348,9 +348,10 @@ def bfgs_method(f, x, line_search=1.0, maxiter=1000, tol=1e-15, num_store=None,
         ys.append(grad_diff)
         ss.append(x_update)
         if num_store is not None:
-            # Throw away factors if they are too many.
-            ss = ss[-num_store:]
-            ys = ys[-num_store:]
+            # Throw away factors if they are too many. (`ss[-num_store:]`
+            # would keep everything for `num_store == 0`.)
+            ss = ss[max(len(ss) - num_store, 0):]
+            ys = ys[max(len(ys) - num_store, 0):]
 
         if callback is not None:
             callback(x)
